@@ -24,7 +24,7 @@ import signal
 import time
 
 from harness.lib import cfg, common, lr1dump
-from harness.translate import lr1_examples
+from harness.translate import lr1_examples, lr1_emboss_runs
 
 PROP = "C08"
 F10_KEY = "error-position-with-unproductive-nonterminal"
@@ -175,9 +175,12 @@ def examine(chk, name, start, prods, tags, tier, stats):
         # the production list without repetitions, seed production last
         aut, plist = lr1dump.dump_automaton(parser, "g", False, sym, code, prod_list=allp)
         case.lines += [aut, lr1dump.gram_line(start, uprods, sym),
-                       lr1dump.cert_line(parser, allp, sym), "LRVALID g", "LRTERM g"]
+                       lr1dump.cert_line(parser, allp, sym), "LRVALID g", "LRTERM g",
+                       "GENV" + lr1dump.gen_line(start, uprods, sym)[3:], "REDUCED"]
         case.checks.append((4, "valid", None))
         case.checks.append((5, "term", None))
+        case.checks.append((6, "genv", None))
+        case.checks.append((7, "reduced", oracle.reduced))
         alphabet = list(oracle.terminals)
         if len(alphabet) <= 3 and "z" not in alphabet:
             alphabet.append("z")          # a token the grammar does not know
@@ -361,6 +364,38 @@ def compare_model(chk, case, answers, stats):
                 "theorem_or_correspondence": "GEN (Lean model of Grammar.parser(), level B) vs the real item "
                                              "sets / tables; the oracle found no failing string",
                 "expected": "identical item sets, state numbering, conflict flag and tables"}, found_input=False)
+        elif kind == "reduced":
+            # the proved productivity check `Gen.reducedB` (hypothesis `Reduced G` of C08_error_position,
+            # theorem C08_reduced_check_sound) against the harness's own marking loop (cfg.Oracle.reduced)
+            if ans == ("reduced=1" if w else "reduced=0"):
+                stats["reduced_agree"] = stats.get("reduced_agree", 0) + 1
+                if w:
+                    stats["reduced_true"] = stats.get("reduced_true", 0) + 1
+                continue
+            disagreements += 1
+            if case.bad or too_many(chk):
+                continue
+            chk.violation("correspondence", {
+                "input": case.grammar_text(), "model": ans,
+                "theorem_or_correspondence": "REDUCED (Lean `Gen.reducedB`) vs the oracle's productivity marking",
+                "expected": "reduced=%d" % (1 if w else 0)}, found_input=False)
+        elif kind == "genv":
+            # the model generator's *own* tables and certificate through the compiled validator and
+            # the termination analysis: what theorem C08_gen_valid proves for every grammar (a
+            # failure here is a defect of the model / the theorem's hypotheses, never of emboss)
+            if ans == "genv wf=1 conflicts=0 valid=ok term=1":
+                stats["genv_ok"] = stats.get("genv_ok", 0) + 1
+                continue
+            if ans.startswith("genv ") and "conflicts=1" in ans and "valid=ok" not in ans:
+                continue        # GEN already reported the difference in the conflict flag
+            disagreements += 1
+            if case.bad or too_many(chk):
+                continue
+            chk.violation("correspondence", {
+                "input": case.grammar_text(), "model": ans,
+                "theorem_or_correspondence": "GENV: the output of the Lean generator model `gen G` does not pass "
+                                             "the Lean validator / termination analysis (C08_gen_valid)",
+                "expected": "genv wf=1 conflicts=0 valid=ok term=1"}, found_input=False)
         elif kind == "term":
             # termination analysis (TermOK, theorem C08_terminates): a real loop on a short input
             # would have hit the per-grammar alarm; here the table as a whole is analysed
@@ -461,9 +496,10 @@ def emboss_cases(chk, tier, stats, model_ok):
                     lr1dump.cert_line(parser, all_prods, sym) + "\n")
         stats["emboss_all_nonterminals_productive_" + slot] = emboss_oracle(start, user).reduced
         case = Case("emboss-" + slot, start, user, ["emboss"])
-        case.lines += ["LOADF " + path, "LRVALID " + slot, "LRTERM " + slot]
+        case.lines += ["LOADF " + path, "LRVALID " + slot, "LRTERM " + slot, "REDUCED"]
         case.checks.append((1, "valid", None))
         case.checks.append((2, "term", None))
+        case.checks.append((3, "reduced", stats["emboss_all_nonterminals_productive_" + slot]))
         case.grammar_text = lambda slot=slot: "Emboss %s grammar (module_ir.PRODUCTIONS)" % slot
         # token streams
         streams = []
@@ -627,6 +663,7 @@ def run(tier):
                        "distinct grammar text that either reports conflicts or is conflict-free and then "
                        "validated + exhaustively compared on all strings up to the length bound")
     lr1_examples.regenerate()      # tie T: example tables from the real lr1.py
+    lr1_emboss_runs.regenerate()   # tie T: `run` equations on the shipped Emboss rows vs the real Parser.parse
     model_ok = common.proof_gate(chk, search)
     stats = new_stats()
     stats["tier"] = tier
